@@ -320,9 +320,73 @@ class FailingRecompute(Suite):
         return repr(case)
 
 
+class ChainForceForms(Suite):
+    """Chain.force(tasks) with every form of the argument - a name, a Task, a list, a tuple, a set, the keys of a mapping,
+    an iterator, a generator, a map object, lists mixing names and Task objects - and every combination of delete_data and
+    recompute: exactly the named tasks and their dependants are marked / deleted / recomputed once.  Runtime check only
+    (the model's force takes a list of tasks)."""
+    name = 'chain_force_argument_forms'
+    model = ''
+    FORMS = ('name', 'task', 'list', 'tuple', 'set', 'dict_keys', 'iterator', 'generator', 'map', 'mixed')
+
+    def gen(self, rng, tier):
+        return [dict(form=f, picks=p, delete=d, recompute=r) for f in self.FORMS for p in (['mid'], ['mid', 'src'])
+                for d, r in ((False, False), (True, False), (False, True))
+                if not (f in ('name', 'task') and len(p) > 1)]
+
+    def run_impl(self, case):
+        from pathlib import Path
+        from taskchain import Config
+        from .. import pipeline as pl
+        from ..suites_chain import K, P
+        classes = [dict(K(0, 'Src'), name='src'), dict(K(1, 'Mid', meta_inputs=[{'cls': 0}]), name='mid'),
+                   dict(K(2, 'Top', meta_inputs=[{'cls': 1}]), name='top'), dict(K(3, 'Side'), name='side')]
+        with pl.workspace(dict(classes=classes, files={})) as (d, mod):
+            ch = Config(Path('data'), name='c', data={'tasks': [f'{mod}.*']}).chain()
+            for t in ch.tasks.values():
+                _ = t.value
+            names = case['picks']
+            arg = {'name': names[0], 'task': ch[names[0]], 'list': list(names), 'tuple': tuple(names), 'set': set(names),
+                   'dict_keys': dict.fromkeys(names).keys(), 'iterator': iter(names), 'generator': (n for n in names),
+                   'map': map(str, names), 'mixed': [ch[n] if i % 2 == 0 else n for i, n in enumerate(names)]}[case['form']]
+            before = len(pl.RUNLOG)
+            ch.force(arg, delete_data=case['delete'], recompute=case['recompute'])
+            ran = sorted(r[1] for r in pl.RUNLOG[before:])
+            marked = sorted(n for n, t in ch.tasks.items() if t._forced)
+            stored = sorted(n for n, t in ch.tasks.items() if t.data_path.exists())
+            before = len(pl.RUNLOG)
+            for t in ch.tasks.values():
+                _ = t.value
+            return dict(ran=ran, marked=marked, stored=stored, ran_after=sorted(r[1] for r in pl.RUNLOG[before:]))
+
+    def oracle(self, case, obs):
+        if 'unexpected_exception' in obs:
+            return f'unexpected exception {obs["unexpected_exception"]}: {obs["text"]}'
+        down = sorted({'src': {'src', 'mid', 'top'}, 'mid': {'mid', 'top'}}['src' if 'src' in case['picks'] else 'mid'])
+        everything = ['mid', 'side', 'src', 'top']
+        what = f'Chain.force({case["form"]} of {case["picks"]}, delete_data={case["delete"]}, recompute={case["recompute"]})'
+        if case['recompute']:
+            if obs['ran'] != down or obs['ran_after']:
+                return f'{what}: recomputed {obs["ran"]} and later {obs["ran_after"]}; the named tasks and their dependants are {down}, once each'
+            return None
+        if obs['marked'] != down:
+            return f'{what}: marked {obs["marked"]}; the named tasks and their dependants are {down}'
+        if case['delete'] and obs['stored'] != sorted(set(everything) - set(down)):
+            return f'{what}: stored results left: {obs["stored"]}; those of {down} are to be removed and no other'
+        if obs['ran_after'] != down:
+            return f'{what}: the next requests ran {obs["ran_after"]}; expected {down}'
+        return None
+
+    def nontrivial(self, case, obs):
+        return True
+
+    def key(self, case):
+        return repr(case)
+
+
 class C07(Prop):
     pid = 'C07'
-    suites = [Forcing(), NameModeForce(), DataKindsForce(), FailingRecompute()]
+    suites = [Forcing(), NameModeForce(), DataKindsForce(), FailingRecompute(), ChainForceForms()]
     assumptions = ['Chain.force iterates a set: the recomputation order is arbitrary, the model uses one order and the '
                    'comparison sorts the runs of that operation']
 
